@@ -125,8 +125,18 @@ COQARGS = ["-Q", os.path.join(COQ, "theories"), "BM", "-Q", GEN, "BMGen",
            "-w", "-notation-overridden,-deprecated-hint-without-locality,-deprecated-instance-without-locality"]
 
 
+TIER = "quick"
+
+
 def coqc(path, timeout=1200, check=True):
-    p = sh(["coqc"] + COQARGS + [path], cwd=os.path.dirname(path), timeout=timeout, check=False)
+    # an evaluation that does not come back is not a verdict: in the quick tier every coqc call is cut at 15 minutes (the run is
+    # then reported as a check that could not be completed)
+    if TIER == "quick":
+        timeout = min(timeout, 900)
+    try:
+        p = sh(["coqc"] + COQARGS + [path], cwd=os.path.dirname(path), timeout=timeout, check=False)
+    except subprocess.TimeoutExpired:
+        raise Broken("coqc did not finish within %d s on %s" % (timeout, path))
     if check and p.returncode != 0:
         raise Broken("coqc failed on %s:\n%s" % (path, (p.stdout + p.stderr)[-6000:]))
     return p
@@ -343,4 +353,6 @@ def seed_and_tier(argv):
     a = ap.parse_args(argv)
     if a.tier not in ("quick", "thorough"):
         a.tier = "quick"
+    global TIER
+    TIER = a.tier
     return a
